@@ -15,8 +15,9 @@ def make_node_class(eq=False, falsy=False):
         tagged = Int(tag=True)
         child = Instance(HasTraits, link=True)
         lazy = Instance(HasTraits)
-        kids = List(Instance(HasTraits))
-        kmap = Dict(Str, Instance(HasTraits))
+        kids = List(Instance(HasTraits), coll=True)
+        rows = List(List(Instance(HasTraits)))
+        kmap = Dict(Str, Instance(HasTraits), coll=True)
         kset = Set(Instance(HasTraits))
         nid = Int(-1)
 
@@ -109,6 +110,12 @@ def enabled(pool, ev):
         return pool[ev[2]] not in d.get("kset", ())
     if k == "kset_discard":
         return pool[ev[2]] in d.get("kset", ())
+    if k == "rows_inner_append":
+        return len(d.get("rows", ())) >= 1
+    if k == "rows_pop":
+        return len(d.get("rows", ())) >= 1
+    if k == "readd_child":
+        return not d.get("_readded")
     if k == "add_trait":
         return "extra" not in o._instance_traits()
     if k == "add_link_trait":
@@ -128,6 +135,8 @@ def prepare(pool, ev):
     nobody), so that the watch set can be computed on the real pre-state."""
     k = ev[0]
     o = pool[ev[1]]
+    if k.startswith("rows_") and k != "rows_assign":
+        o.rows
     if k.startswith("kids_") and k not in ("kids_assign", "kids_assign_eq"):
         o.kids
     elif k.startswith("kmap_"):
@@ -232,6 +241,33 @@ def apply(pool, ev):
         c = o.kset
         c.discard(pool[ev[2]])
         return ("cont", c), False
+    if k == "rows_append_empty":
+        c = o.rows
+        c.append([])
+        return ("cont", c), False
+    if k == "rows_append_row":
+        c = o.rows
+        c.append([pool[ev[2]]])
+        return ("cont", c), False
+    if k == "rows_inner_append":
+        c = o.rows[0]
+        c.append(pool[ev[2]])
+        return ("cont", c), False
+    if k == "rows_pop":
+        c = o.rows
+        c.pop()
+        return ("cont", c), False
+    if k == "rows_assign":
+        old = o.__dict__.get("rows")
+        eq = old is not None and len(old) == 2 and list(old[0]) == [] and \
+            len(old[1]) == 1 and old[1][0] is pool[ev[2]]
+        o.rows = [[], [pool[ev[2]]]]
+        return ("trait", o, "rows"), eq
+    if k == "readd_child":
+        # re-define an existing (possibly observed) trait on the instance
+        o.add_trait("child", Instance(HasTraits, link=True))
+        o.__dict__["_readded"] = True
+        return ("add_trait", o, "child"), False
     if k == "add_trait":
         o.add_trait("extra", Int(tag=True))
         return ("add_trait", o, "extra"), False
@@ -275,6 +311,13 @@ def event_menu(names, idx=(0, 1)):
         if "kset" in names:
             evs += [("kset_add", i, j) for j in allp]
             evs += [("kset_discard", i, j) for j in allp]
+        if "rows" in names:
+            evs += [("rows_append_empty", i)]
+            evs += [("rows_append_row", i, j) for j in allp[:2]]
+            evs += [("rows_inner_append", i, j) for j in allp]
+            evs += [("rows_pop", i), ("rows_assign", i, 1)]
+        if "readd" in names:
+            evs += [("readd_child", i)]
         if "extra" in names:
             evs += [("add_trait", i)]
         if "xlink" in names:
@@ -383,11 +426,15 @@ def fingerprint(objs):
             ns = t._notifiers(False) or []
             if ns:
                 ent.append((name, sorted(notifier_fp(n) for n in ns)))
-        for cname in ("kids", "kmap", "kset"):
+        for cname in ("kids", "kmap", "kset", "rows"):
             c = o.__dict__.get(cname)
             if c is not None:
                 ent.append((cname + "#", sorted(notifier_fp(n)
                                                 for n in c.notifiers)))
+                if cname == "rows":
+                    for row in c:
+                        ent.append(("row#", sorted(notifier_fp(n)
+                                                   for n in row.notifiers)))
         out.append(ent)
     return out
 
@@ -413,6 +460,9 @@ def shape(pool):
             if "kmap" in d else "unset",
             sorted(ix(x) for x in d["kset"]) if "kset" in d else "unset",
             "extra" in o._instance_traits(),
+            [[ix(x) for x in row] for row in d["rows"]]
+            if "rows" in d else "unset",
+            bool(d.get("_readded")),
             ("none" if "xlink" not in o._instance_traits() else
              (ix(d["xlink"]) if d.get("xlink") is not None else None)),
         ))
